@@ -4,7 +4,9 @@ import (
 	"bytes"
 	"encoding/json"
 	"fmt"
-	"time"
+	"os"
+	"os/exec"
+	"strings"
 
 	"verif/harness/ref"
 	"verif/harness/vc"
@@ -561,9 +563,114 @@ func scnClass(n string) string {
 	return n
 }
 
+// ---- conformance B: the same conversations on the virtual socket and over real TCP ----
+
+type confStep struct {
+	Send   string   `json:"send_hex"`
+	Expect []string `json:"expect_hex"`
+}
+
+type confTrace struct {
+	Name  string     `json:"name"`
+	Steps []confStep `json:"steps"`
+}
+
+// confbTrace runs msgs one by one on the instrumented server (run-to-block schedule, each frame awaited) and
+// records what the server wrote after each frame.
+func confbTrace(name string, msgs []tmsg, plain bool) (confTrace, string) {
+	tr := confTrace{Name: name}
+	mk := func() (func(), any) {
+		vnet.Reset()
+		return func() {
+			w := startWorld(worldOpts{noRecord: plain})
+			p := w.dial()
+			seen := 0
+			for _, m := range msgs {
+				f := m.frame()
+				p.Send(f)
+				vs.WaitIdle() // everything the server does in reaction to this frame is done
+				out := p.Writes()
+				st := confStep{Send: hx2(f)}
+				for _, o := range out[seen:] {
+					st.Expect = append(st.Expect, hx2(o.Data))
+				}
+				seen = len(out)
+				tr.Steps = append(tr.Steps, st)
+			}
+		}, nil
+	}
+	x := &vs.Explorer{Make: mk, Check: func(*vs.Result, any) []vs.Violation { return nil }}
+	res, _, _ := x.RunOnce(nil, nil, false)
+	if v := baseViolations(res, serverIdle); len(v) > 0 {
+		return tr, v[0].Msg
+	}
+	return tr, ""
+}
+
+func confB(rep *vc.Report) {
+	bin := os.Getenv("VERIF_CONFB")
+	if bin == "" {
+		rep.Notes = append(rep.Notes, "conformance B skipped: VERIF_CONFB not set (bin/vcheck sets it)")
+		return
+	}
+	p1 := "13800138000"
+	var traces []confTrace
+	convs := map[string][]tmsg{
+		"reg-auth-hb-loc":           {{ID: 0x0100, Phone: p1, Serial: 1}, {ID: 0x0102, Phone: p1, Serial: 2}, {ID: 0x0002, Phone: p1, Serial: 3}, {ID: 0x0200, Phone: p1, Serial: 4}},
+		"2019-mixed":                {{ID: 0x0100, V2019: true, Phone: p1, Serial: 0xFFFF}, {ID: 0x0102, V2019: true, Phone: p1, Serial: 0, Variant: 1}, {ID: 0x0704, V2019: true, Phone: p1, Serial: 1}, {ID: 0x0801, V2019: true, Phone: p1, Serial: 2, Variant: 1}},
+		"responses-and-unsupported": {{ID: 0x0001, Phone: p1, Serial: 1}, {ID: 0x0F01, Phone: p1, Serial: 2}, {ID: 0x0805, Phone: p1, Serial: 3}, {ID: 0x1212, Phone: p1, Serial: 4}, {ID: 0x1003, Phone: p1, Serial: 5}},
+		"subpackage":                {{ID: 0x0801, Phone: p1, Serial: 10, Total: 2, Number: 1, Body: "000000aa0000010211223344556677889900112233445566778899001122334455667788"}, {ID: 0x0002, Phone: p1, Serial: 11}, {ID: 0x0801, Phone: p1, Serial: 12, Total: 2, Number: 2, Body: "7e7d7e7d0102"}},
+		"escape-dense":              {{ID: 0x0200, Phone: "7e7d7e7d7e7d", Serial: 0x7E7D, Body: hx2(append([]byte{0x7E, 0x7D, 0x7E, 0x7D}, make([]byte, 24)...))}, {ID: 0x0002, Phone: "7e7d7e7d7e7d", Serial: 0x7D7E}},
+	}
+	for _, name := range sortedKeys(convs) {
+		for _, plain := range []bool{true, false} {
+			tr, bad := confbTrace(fmt.Sprintf("%s/plain=%v", name, plain), convs[name], plain)
+			if bad != "" {
+				rep.Nondet = "conformance B: virtual run failed: " + bad
+				return
+			}
+			traces = append(traces, tr)
+		}
+	}
+	// every default ID once, both versions
+	for _, v := range []bool{false, true} {
+		var all []tmsg
+		for i, id := range ref.DefaultIDs {
+			all = append(all, tmsg{ID: id, V2019: v, Phone: p1, Serial: uint16(i)})
+		}
+		tr, bad := confbTrace(fmt.Sprintf("all-default-ids/v2019=%v", v), all, true)
+		if bad != "" {
+			rep.Nondet = "conformance B: virtual run failed: " + bad
+			return
+		}
+		traces = append(traces, tr)
+	}
+	f, err := os.CreateTemp("", "confb-*.json")
+	if err != nil {
+		return
+	}
+	defer os.Remove(f.Name())
+	js, _ := json.Marshal(traces)
+	_, _ = f.Write(js)
+	_ = f.Close()
+	out, err := exec.Command(bin, f.Name()).CombinedOutput()
+	if err != nil {
+		if ee, ok := err.(*exec.ExitError); ok && ee.ExitCode() == 3 {
+			rep.Notes = append(rep.Notes, "conformance B skipped: loopback TCP not available here: "+strings.TrimSpace(string(out)))
+			return
+		}
+		rep.Nondet = "conformance B: the un-instrumented server over real TCP differs from the instrumented one on the virtual socket (socket model or rewriter wrong):\n" + string(out)
+		return
+	}
+	rep.Count("conformance_b_conversations_identical_over_real_tcp", int64(len(traces)))
+	rep.TracesValidated += int64(len(traces))
+	rep.Notes = append(rep.Notes, "conformance B: "+strings.TrimSpace(string(out)))
+}
+
 func c06Run(ctx *vc.Ctx, rep *vc.Report) {
-	start := time.Now()
-	_ = start
+	if ctx.Worker == 0 {
+		confB(rep)
+	}
 	// (a) sequential histories
 	alpha := c06Alphabet(true)
 	var idx int64
